@@ -506,6 +506,65 @@ func inventory(pkgs map[string]*loaded, names []string) (maps, clocks, rands, go
 	return
 }
 
+// panicSites lists the constructs of the two modules (and the shared types) that can panic on a data-dependent condition:
+// explicit panic calls, range-checked conversions of math.Int (Int64 / Uint64), coin constructors that validate by panicking,
+// Must* helpers, and indexing with a literal index.
+func panicSites(pkgs map[string]*loaded, names []string) (sites []string) {
+	for _, name := range names {
+		l := pkgs[name]
+		if l == nil {
+			continue
+		}
+		for _, f := range l.files {
+			fname := strings.TrimPrefix(l.fset.Position(f.Pos()).Filename, "/repo/")
+			if strings.HasSuffix(fname, ".pb.go") || strings.HasSuffix(fname, ".pb.gw.go") || strings.HasSuffix(fname, "_test.go") ||
+				strings.Contains(fname, "/client/") || strings.Contains(fname, "/simulation/") || strings.HasSuffix(fname, "/module.go") ||
+				strings.HasSuffix(fname, "query.go") {
+				continue
+			}
+			var fn string
+			ast.Inspect(f, func(n ast.Node) bool {
+				switch x := n.(type) {
+				case *ast.FuncDecl:
+					fn = x.Name.Name
+				case *ast.CallExpr:
+					name := exprName(x.Fun)
+					base := name
+					if i := strings.LastIndex(name, "."); i >= 0 {
+						base = name[i+1:]
+					}
+					switch {
+					case name == "panic":
+						sites = append(sites, fmt.Sprintf("%s:%s:panic", fname, fn))
+					case base == "NewCoins" || base == "NewCoin" || base == "NewDecCoin" || base == "NewInt64Coin":
+						sites = append(sites, fmt.Sprintf("%s:%s:%s", fname, fn, base))
+					case strings.HasPrefix(base, "Must") && !strings.Contains(strings.ToLower(base), "marshal") && base != "MustSortJSON":
+						sites = append(sites, fmt.Sprintf("%s:%s:%s", fname, fn, base))
+					case base == "Int64" || base == "Uint64":
+						if sel, ok := x.Fun.(*ast.SelectorExpr); ok {
+							if tv, ok := l.info.Types[sel.X]; ok && strings.HasSuffix(tv.Type.String(), "math.Int") {
+								sites = append(sites, fmt.Sprintf("%s:%s:%s", fname, fn, base))
+							}
+						}
+					}
+				case *ast.IndexExpr:
+					if lit, ok := x.Index.(*ast.BasicLit); ok {
+						if tv, ok := l.info.Types[x.X]; ok {
+							switch tv.Type.Underlying().(type) {
+							case *types.Slice, *types.Basic:
+								sites = append(sites, fmt.Sprintf("%s:%s:index[%s]", fname, fn, lit.Value))
+							}
+						}
+					}
+				}
+				return true
+			})
+		}
+	}
+	sort.Strings(sites)
+	return
+}
+
 // timeNowOnlyTelemetry: every time.Now() is an argument of a telemetry call
 func clocksOnlyTelemetry(pkgs map[string]*loaded, names []string) bool {
 	ok := true
@@ -619,6 +678,7 @@ func main() {
 	scan := []string{"x/oracle", "x/oracle/keeper", "x/oracle/types", "x/oracle/voteprocessor", "x/settlement", "x/settlement/keeper", "x/settlement/types", "app/ante", "app/post", "types"}
 	maps, clocks, rands, gos := inventory(pkgs, scan)
 	telemetryOnly := clocksOnlyTelemetry(pkgs, scan)
+	psites := panicSites(pkgs, []string{"x/oracle", "x/oracle/keeper", "x/oracle/types", "x/oracle/voteprocessor", "x/settlement", "x/settlement/keeper", "x/settlement/types", "types"})
 	methods, locked := cacheLocks(pkgs["tools/interop-node/subscriber"])
 	dp := otypes.DefaultParams()
 
@@ -650,6 +710,7 @@ func main() {
 	w("/-- `range` over map-typed operands in x/, app/ante, app/post, types (file:function:operand) -/\ndef mapRanges : List String := %s\n", leanList(mapS(maps, leanStr)))
 	w("/-- time.Now() call sites, and whether each is an argument of a telemetry call -/\ndef clockSites : List String := %s\ndef clocksOnlyTelemetry : Bool := %v\n", leanList(mapS(clocks, leanStr)), telemetryOnly)
 	w("/-- imports of math/rand or crypto/rand, goroutine starts in the state-machine packages -/\ndef randImports : List String := %s\ndef goStatements : List String := %s\n", leanList(mapS(rands, leanStr)), leanList(mapS(gos, leanStr)))
+	w("/-- constructs that can panic on data: explicit panics, math.Int range conversions, panicking coin constructors, Must* helpers, literal indexing (file:function:what) -/\ndef panicSites : List String := %s\n", leanList(mapS(psites, leanStr)))
 	w("/-- modules wired into the application that can execute messages on behalf of an account -/\ndef messageExecutingModules : List String := %s\n", leanList(mapS(moduleList(pkgs["app"]), leanStr)))
 	w("/-- methods of the feeder's BlockCache that touch the tree map, with whether they take the mutex first and release it by defer -/")
 	w("def cacheMethods : List String := %s\ndef cacheAllLocked : Bool := %v\n", leanList(mapS(methods, leanStr)), locked)
